@@ -1,4 +1,5 @@
 import Ark.Model.Mont
+import Ark.Model.MontOps
 import Ark.Model.FieldOps
 import Ark.Model.NatSpec
 import Ark.Model.Proto
@@ -18,19 +19,11 @@ def getCfg (cache : Cache) (fl n p : String) : Option Cache := do
     let nn ← parseHex? n; let pp ← parseHex? p
     some { key := key, cfg := mkCfg (fl == "d") nn pp, rinv := modInv (B ^ nn % pp) pp }
 
-def montOps (c : MontCfg) : Ops (List Nat) where
-  zero := zeros c.n
-  one := c.r
-  add := Mont.add c
-  sub := Mont.sub c
-  mul := Mont.mul c
-  neg := Mont.neg c
-  square := Mont.square c
-  double := Mont.double c
-  inv := Mont.inverse c
-  isZero := isZero
-
 def vs (impl spec : String) : String := if impl == spec then "ok" else "bad:want=" ++ spec
+
+def outStr : Outcome (List Nat) → String
+  | .ok l => hex (value l)
+  | .panic => "panic"
 
 def optStr : Option (List Nat) → String
   | some l => hex (value l)
@@ -103,6 +96,34 @@ def run (cache : Cache) (op : String) (args : List String) (impl : String) : Opt
         | none => "panic"
       let s := hexList (v.map (fun x => if x % pv = 0 then 0 else frN (toN coeff * modInv (toN x) pv)))
       out m s
+    | "fromu64", [x] =>
+      let x ← parseHex? x
+      out (outStr (Mont.fromU64 c x)) (if nn ≥ 2 ∧ x ≥ pv then "panic" else hex (frN x))
+    | "fromu128", [x] =>
+      let x ← parseHex? x
+      out (outStr (Mont.fromU128 c x)) (if nn ≥ 3 ∧ !(isZero (c.p.drop 2)) ∧ x ≥ pv then "panic" else hex (frN x))
+    | "fromi64", [x] =>
+      let x ← parseInt? x
+      out (outStr (Mont.fromSigned c false x)) (if nn ≥ 2 ∧ x.natAbs ≥ pv then "panic" else hex (frN ((x % (pv : Int)).toNat)))
+    | "fromi128", [x] =>
+      let x ← parseInt? x
+      out (outStr (Mont.fromSigned c true x)) (if nn ≥ 3 ∧ !(isZero (c.p.drop 2)) ∧ x.natAbs ≥ pv then "panic" else hex (frN ((x % (pv : Int)).toNat)))
+    | "frombytesle", [bs] =>
+      let bs ← parseList? bs
+      out (outStr (Mont.fromLeBytesModOrder c bs)) (if nn ≥ 2 ∧ pv ≤ 256 then "panic" else hex (frN (Mont.bytesValueLE bs)))
+    | "frombytesbe", [bs] =>
+      let bs ← parseList? bs
+      out (outStr (Mont.fromBeBytesModOrder c bs)) (if nn ≥ 2 ∧ pv ≤ 256 then "panic" else hex (frN (Mont.bytesValueLE bs.reverse)))
+    | "fromstr", [d] =>
+      -- decimal parse goes through num-bigint (trusted): `d` is the integer, printed in hex by the harness
+      let x ← parseInt? d
+      let s := hex (frN ((x % (pv : Int)).toNat))
+      out s s
+    | "display", [a, d] =>
+      -- harness passes the decimal string re-parsed as a number (hex): must equal the standard value
+      let a ← parseHex? a; let _d ← parseHex? d
+      let s := hex (toN a)
+      out s s
     | _, _ => none
   | _ => none
 
